@@ -156,14 +156,81 @@ pub struct FundingShadow {
     /// successful PayFunding transactions (nothing else may move it)
     cum: Vec<i128>,
     pub divergences: u64,
+    /// the monitor's own reserve timeline per vAMM: (height, time, quote reserve, base reserve) at the end of every block
+    /// in which the vAMM traded (and of the deployment block). The TWAP-based notional of a position is recomputed from
+    /// it, so that the margin-ratio oracles do not depend on the vAMM's own OutputTwap answer
+    tl: Vec<Vec<(u64, u64, u128, u128)>>,
+    pub twap_checks: u64,
+    pub twap_divergences: u64,
+}
+
+/// The time-weighted average of one value per block (the value in effect from the block's time on) over
+/// `[now - iv, now]`, or over the whole history when that is shorter. `None` when it is undefined (zero-length
+/// history, overflow).
+pub fn reference_twap(tl: &[(u64, u64, u128)], now: u64, iv: u64) -> Option<u128> {
+    let n = tl.len();
+    if n == 0 || iv == 0 {
+        return None;
+    }
+    let base = now.checked_sub(iv)?;
+    let latest = tl[n - 1];
+    if n == 1 || latest.1 <= base {
+        return Some(latest.2);
+    }
+    let mut prev = latest.1;
+    let mut period = now.checked_sub(prev)?;
+    let mut acc = latest.2.checked_mul(period as u128)?;
+    for k in (0..n - 1).rev() {
+        let s = tl[k];
+        if s.1 <= base {
+            acc = acc.checked_add(s.2.checked_mul((prev - base) as u128)?)?;
+            return Some(acc / iv as u128);
+        }
+        acc = acc.checked_add(s.2.checked_mul((prev.checked_sub(s.1)?) as u128)?)?;
+        period += prev - s.1;
+        prev = s.1;
+    }
+    if period == 0 {
+        return None;
+    }
+    Some(acc / period as u128)
+}
+
+/// quote exchanged for `x` base on the constant-product curve with reserves (q, b): the invariant is floor(q*b/D)*D, the
+/// new quote reserve its floor quotient by the new base reserve (the contract's one-unit remainder correction is left out:
+/// callers allow for it)
+pub fn reference_output(q: u128, b: u128, d: u128, add: bool, x: u128) -> Option<u128> {
+    let k = Big::u(q).mul(Big::u(b)).div(Big::u(d)).mul(Big::u(d));
+    let b2 = if add { b.checked_add(x)? } else { b.checked_sub(x)? };
+    if b2 == 0 {
+        return None;
+    }
+    let q2 = k.div(Big::u(b2)).to_u128()?;
+    Some(q2.abs_diff(q))
 }
 
 impl FundingShadow {
-    pub fn begin(&mut self, s0: &Snap) {
+    pub fn begin(&mut self, w: &World, s0: &Snap) {
         self.ck.clear();
+        self.tl = s0.vamms.iter().map(|v| vec![(w.deploy_height, w.deploy_time, v.q, v.b)]).collect();
         self.cum = s0.vamms.iter().map(|v| v.cum_premium).collect();
         for p in &s0.pos {
             self.ck.insert((p.vamm, p.trader.clone()), p.ckpt);
+        }
+    }
+    /// coverage counters of the shadow records
+    pub fn report(&mut self, r: &mut crate::ops::Report) {
+        if self.divergences > 0 {
+            r.count_n("stored-checkpoint-differs-from-observed-settlements", self.divergences);
+            self.divergences = 0;
+        }
+        if self.twap_checks > 0 {
+            r.count_n("twap-notionals-cross-checked-against-own-reserve-timeline", self.twap_checks);
+            self.twap_checks = 0;
+        }
+        if self.twap_divergences > 0 {
+            r.count_n("twap-notionals-where-the-vamm-answer-differs-from-own-timeline", self.twap_divergences);
+            self.twap_divergences = 0;
         }
     }
     pub fn get(&self, vamm: usize, trader: &str) -> Option<i128> {
@@ -172,8 +239,29 @@ impl FundingShadow {
     pub fn cum(&self, vamm: usize) -> Option<i128> {
         self.cum.get(vamm).cloned()
     }
+    /// the TWAP of the quote value of `abs` base over the vAMM's configured interval, from the monitor's own timeline
+    pub fn own_output_twap(&self, snap: &Snap, vamm: usize, add: bool, abs: u128) -> Option<(u128, usize)> {
+        let tl = self.tl.get(vamm)?;
+        let vs = &snap.vamms[vamm];
+        let vals: Option<Vec<(u64, u64, u128)>> = tl.iter().map(|s| reference_output(s.2, s.3, vs.decimals, add, abs).map(|v| (s.0, s.1, v))).collect();
+        let vals = vals?;
+        // (the engine values positions with the vAMM's OutputTwap, which averages over fifteen minutes whatever the configured interval)
+        Some((reference_twap(&vals, snap.time, 900)?, vals.len()))
+    }
     pub fn observe(&mut self, w: &World, st: &Step) {
         let post = &st.post;
+        let swapped: std::collections::BTreeSet<usize> = crate::mon::util::swap_events(w, &st.out).iter().map(|s| s.vamm).collect();
+        for (i, (a, b)) in st.pre.vamms.iter().zip(st.post.vamms.iter()).enumerate() {
+            if i < self.tl.len() && (a.q != b.q || a.b != b.b || swapped.contains(&i)) {
+                let n = self.tl[i].len();
+                if self.tl[i][n - 1].0 == post.height {
+                    self.tl[i][n - 1].2 = b.q;
+                    self.tl[i][n - 1].3 = b.b;
+                } else {
+                    self.tl[i].push((post.height, post.time, b.q, b.b));
+                }
+            }
+        }
         if let Op::Engine { msg: eng::ExecuteMsg::PayFunding { vamm }, .. } = &st.op {
             if st.out.ok {
                 if let Some(i) = w.vamm_idx(vamm) {
@@ -221,6 +309,17 @@ pub fn pos_view_sh(w: &World, snap: &Snap, vamm: usize, trader: &str, sh: &mut F
             sh.divergences += 1;
         }
         v.cum = c;
+    }
+    // the TWAP-based notional from the monitor's own reserve timeline; the vAMM's answer is kept when the two agree to
+    // within rounding (one unit per snapshot's remainder correction and one for the final division)
+    if v.abs_size > 0 {
+        if let (Some(t), Some((own, _n))) = (v.twap_notional, sh.own_output_twap(snap, vamm, v.pos.long_dir, v.abs_size)) {
+            sh.twap_checks += 1;
+            if t.abs_diff(own) > 3 + own / 1_000_000_000_000 {
+                sh.twap_divergences += 1;
+                v.twap_notional = Some(own);
+            }
+        }
     }
     Some(v)
 }
